@@ -20,9 +20,13 @@ HEX4 = re.compile(rb"^[0-9A-Fa-f]{4}$")
 
 def strict_ident(rng, with_id: bool = True) -> tuple[bytes, str, str | None]:
     """(line without EOL, manufacturer id, identification or None) accepted by the standard."""
-    man = rng.choice("ABCDEFGHIJKLMNOPQRSTUVWXYZ") + rng.choice("ABCDEFGHIJKLMNOPQRSTUVWXYZ") + rng.choice(
-        "ABCDEFGHIJKLMNOPQRSTUVWXYZabcdefghijklmnopqrstuvwxyz"
-    )
+    if rng.random() < 0.4:
+        # FLAG manufacturer ids that exist (a decoder may special-case a manufacturer)
+        man = rng.choice(("ISK", "ISk", "KAM", "LGF", "XMX", "ELL", "KFM", "AUX", "EMH", "SAG", "ENE", "ADN", "KMP", "ITR", "ZPA"))
+    else:
+        man = rng.choice("ABCDEFGHIJKLMNOPQRSTUVWXYZ") + rng.choice("ABCDEFGHIJKLMNOPQRSTUVWXYZ") + rng.choice(
+            "ABCDEFGHIJKLMNOPQRSTUVWXYZabcdefghijklmnopqrstuvwxyz"
+        )
     baud = str(rng.randrange(10))
     esc = "".join("\\" + rng.choice(WORD) for _ in range(rng.choice((0, 0, 0, 1, 2))))
     ident = None
